@@ -578,6 +578,8 @@ func driveCodec(w *writer) error {
 			doTrailer(w, &c)
 		case "coilextract":
 			w.emit(doCoilExtract(&c))
+		case "emitexc":
+			w.emit(doEmitExc(&c))
 		case "coilroundtrip":
 			w.emit(doCoilRoundTrip(&c))
 			w.emit(doCoilDevice(&c))
@@ -598,7 +600,7 @@ func min(a, b int) int {
 func doNewReq(c *codecCase) Ev {
 	e := Ev{"op": "newreq", "fc": c.Fc, "framing": c.Framing, "unit": c.Unit, "addr": c.Addr, "qty": c.Qty,
 		"data": orEmpty(c.Data), "coils": orEmpty(c.Coils), "waddr": c.Waddr, "tid": 0, "accepted": false,
-		"bytes": []int{}, "explen": 0, "panic": false, "bytes2": []int{}, "bytes3": []int{}, "prevThen": []int{}, "prevNow": []int{}}
+		"bytes": []int{}, "explen": 0, "panic": false, "bytes2": []int{}, "bytes3": []int{}, "prevThen": []int{}, "prevNow": []int{}, "bytesProto": []int{}}
 	func() {
 		defer func() {
 			if p := recover(); p != nil {
@@ -628,6 +630,16 @@ func doNewReq(c *codecCase) Ev {
 			c.argCoils[i] = !c.argCoils[i]
 		}
 		e["bytes3"] = ints(r.Bytes())
+		if c.Framing == "tcp" {
+			// the MBAP protocol identifier on the wire is 0 for Modbus, whatever the header struct's field holds
+			if f := reflect.ValueOf(r); f.Kind() == reflect.Ptr {
+				if pf := f.Elem().FieldByName("ProtocolID"); pf.IsValid() && pf.CanSet() {
+					pf.SetUint(0x0102)
+					e["bytesProto"] = ints(r.Bytes())
+					pf.SetUint(0)
+				}
+			}
+		}
 		if lastReq != nil {
 			e["prevThen"], e["prevNow"] = lastReqThen, ints(lastReq.Bytes())
 		}
@@ -1030,7 +1042,7 @@ func doCRCSweep(c *codecCase) Ev {
 
 func doCoil(c *codecCase) Ev {
 	e := Ev{"op": "coil", "fc": c.Fc, "framing": c.Framing, "payload": orEmpty(c.Payload), "start": c.Start, "addr": c.Addr,
-		"method": c.Method, "outcome": "", "value": 0}
+		"method": c.Method, "outcome": "", "value": 0, "lenDep": false}
 	func() {
 		defer func() {
 			if p := recover(); p != nil {
@@ -1053,6 +1065,23 @@ func doCoil(c *codecCase) Ev {
 		} else {
 			e["outcome"] = "ok"
 			e["value"] = b2i(v)
+		}
+		// the lookup is a function of the PAYLOAD: the redundant byte-length field of a hand-built response (left at
+		// zero, or larger than the payload) must not change the answer
+		for _, bl := range []uint8{0, 255} {
+			var v2 bool
+			var err2 error
+			switch {
+			case c.Fc == 1:
+				v2, err2 = packet.ReadCoilsResponse{UnitID: 1, CoilsByteLength: bl, Data: data}.IsCoilSet(uint16(c.Start), uint16(c.Addr))
+			case c.Method == "IsInputSet":
+				v2, err2 = packet.ReadDiscreteInputsResponse{UnitID: 1, InputsByteLength: bl, Data: data}.IsInputSet(uint16(c.Start), uint16(c.Addr))
+			default:
+				v2, err2 = packet.ReadDiscreteInputsResponse{UnitID: 1, InputsByteLength: bl, Data: data}.IsCoilSet(uint16(c.Start), uint16(c.Addr))
+			}
+			if (err2 != nil) != (err != nil) || v2 != v {
+				e["lenDep"] = true
+			}
 		}
 	}()
 	return e
@@ -1137,6 +1166,24 @@ func doCoilExtract(c *codecCase) Ev {
 
 // doCoilRoundTrip: write-multiple-coils request built by the library; a device that stores the request's
 // coil bytes answers a read of the same range with exactly those bytes; every coil is then looked up.
+// doEmitExc: the RTU exception encoders (ErrorResponseRTU.Bytes, ErrorParseRTU.Bytes) for any unit / function / code
+func doEmitExc(c *codecCase) Ev {
+	e := Ev{"op": "emitexc", "unit": c.Unit, "fc": c.Fc, "code": c.Qty, "resp": []int{}, "parse": []int{}, "outcome": "ok"}
+	func() {
+		defer func() {
+			if p := recover(); p != nil {
+				e["outcome"] = "panic"
+			}
+		}()
+		er := packet.ErrorResponseRTU{UnitID: uint8(c.Unit), Function: uint8(c.Fc), Code: uint8(c.Qty)}
+		e["resp"] = ints(er.Bytes())
+		ep := packet.NewErrorParseRTU(uint8(c.Qty), "verif")
+		ep.Packet.UnitID, ep.Packet.Function = uint8(c.Unit), uint8(c.Fc)
+		e["parse"] = ints(ep.Bytes())
+	}()
+	return e
+}
+
 func doCoilRoundTrip(c *codecCase) Ev {
 	e := Ev{"op": "coilroundtrip", "framing": c.Framing, "start": c.Addr, "coils": orEmpty(c.Coils), "accepted": false, "bytes": []int{}, "got": []int{}, "outcome": "ok"}
 	func() {
